@@ -242,6 +242,27 @@ func (c *Ctx) localIs(rule, fnName, name, valRe string) {
 	c.R.Check(n > 0 && bad == "", rule, fnName, "captured "+name+" is /"+valRe+"/", c.P.FuncPos(fn), "local "+name+" assigned from "+bad+" (stores: "+itoa(n)+")")
 }
 
+// localAssigned is localIs that also reports the verdict.
+func (c *Ctx) localAssigned(rule, fnName, name, valRe string) bool {
+	fn := c.P.Func(fnName)
+	if fn == nil {
+		c.localIs(rule, fnName, name, valRe)
+		return false
+	}
+	r := re(valRe)
+	n, bad := 0, false
+	for _, in := range ir.Instrs(fn) {
+		if st, ok := in.(*ssa.Store); ok && ir.Desc(st.Addr) == "&local:"+name {
+			n++
+			if !r.MatchString(ir.Desc(st.Val)) {
+				bad = true
+			}
+		}
+	}
+	c.localIs(rule, fnName, name, valRe)
+	return n > 0 && !bad
+}
+
 func itoa(n int) string { return strconv.Itoa(n) }
 
 func ruleUnregisterMember(c *Ctx, r7 string) {
